@@ -9,7 +9,7 @@
 //! DISTINCT result a job ever produced is reported.
 
 use crate::mon::guard;
-use std::sync::Barrier;
+use std::sync::atomic::{AtomicBool, AtomicUsize, Ordering};
 use std::time::{Duration, Instant};
 
 pub type Job = Box<dyn Fn() -> Vec<f64> + Send + Sync>;
@@ -21,25 +21,58 @@ pub struct ConcStats {
     pub jobs_with_more_than_one_result: u64,
 }
 
+/// Rendezvous of the worker threads at the start of every round (so that, on a loaded machine too, the rounds are
+/// executed while all workers are on a CPU); spins with yield, gives up when a worker has reported a panic.
+struct Rendezvous {
+    n: usize,
+    count: AtomicUsize,
+    generation: AtomicUsize,
+    abort: AtomicBool,
+    stop: AtomicBool,
+}
+impl Rendezvous {
+    fn wait(&self) -> bool {
+        let g = self.generation.load(Ordering::Acquire);
+        if self.count.fetch_add(1, Ordering::AcqRel) + 1 == self.n {
+            self.count.store(0, Ordering::Release);
+            self.generation.fetch_add(1, Ordering::Release);
+        } else {
+            while self.generation.load(Ordering::Acquire) == g {
+                if self.abort.load(Ordering::Relaxed) {
+                    return false;
+                }
+                std::thread::yield_now();
+            }
+        }
+        !self.abort.load(Ordering::Relaxed)
+    }
+}
+
 /// Per job: the distinct results (bit patterns) seen over all rounds and threads; Err(panic message) if a thread's
 /// library call panicked.
 pub fn run(jobs: &[Job], threads: usize, min_ms: u64, min_rounds: u64) -> Result<(Vec<Vec<Vec<u64>>>, ConcStats), String> {
     let n = jobs.len();
-    let barrier = Barrier::new(threads);
+    let rv = Rendezvous { n: threads, count: AtomicUsize::new(0), generation: AtomicUsize::new(0), abort: AtomicBool::new(false), stop: AtomicBool::new(false) };
     let mut per_thread: Vec<Result<(Vec<(usize, Vec<Vec<u64>>)>, u64, u64), String>> = Vec::new();
     std::thread::scope(|s| {
         let mut hs = Vec::new();
         for t in 0..threads {
-            let barrier = &barrier;
+            let rv = &rv;
             hs.push(s.spawn(move || {
                 let mine: Vec<usize> = (0..n).filter(|i| i % threads == t).collect();
                 let mut seen: Vec<Vec<Vec<u64>>> = mine.iter().map(|_| Vec::new()).collect();
-                barrier.wait();
                 let t0 = Instant::now();
                 let mut rounds = 0u64;
                 let mut calls = 0u64;
-                let r = guard(|| {
-                    loop {
+                loop {
+                    // all workers start the round together
+                    if !rv.wait() {
+                        return Err("<another worker's library call panicked>".to_string());
+                    }
+                    if rv.stop.load(Ordering::Acquire) {
+                        break;
+                    }
+                    let r = guard(|| {
                         for (slot, &i) in mine.iter().enumerate() {
                             for _ in 0..2 {
                                 let bits: Vec<u64> = jobs[i]().iter().map(|v| v.to_bits()).collect();
@@ -49,16 +82,21 @@ pub fn run(jobs: &[Job], threads: usize, min_ms: u64, min_rounds: u64) -> Result
                                 }
                             }
                         }
-                        rounds += 1;
-                        if rounds >= min_rounds && t0.elapsed() >= Duration::from_millis(min_ms) {
-                            break;
-                        }
-                        if rounds >= 200_000 {
-                            break;
-                        }
+                    });
+                    if let Err(p) = r {
+                        rv.abort.store(true, Ordering::Release);
+                        return Err(p);
                     }
-                });
-                r.map(|_| (mine.into_iter().zip(seen).collect::<Vec<_>>(), rounds, calls))
+                    rounds += 1;
+                    // second rendezvous: the leader decides, between two rendezvous, whether another round follows
+                    if !rv.wait() {
+                        return Err("<another worker's library call panicked>".to_string());
+                    }
+                    if t == 0 && ((rounds >= min_rounds && t0.elapsed() >= Duration::from_millis(min_ms)) || rounds >= 200_000) {
+                        rv.stop.store(true, Ordering::Release);
+                    }
+                }
+                Ok((mine.into_iter().zip(seen).collect::<Vec<_>>(), rounds, calls))
             }));
         }
         for h in hs {
@@ -67,8 +105,22 @@ pub fn run(jobs: &[Job], threads: usize, min_ms: u64, min_rounds: u64) -> Result
     });
     let mut out: Vec<Vec<Vec<u64>>> = (0..n).map(|_| Vec::new()).collect();
     let mut st = ConcStats { threads, rounds_min: u64::MAX, calls: 0, jobs_with_more_than_one_result: 0 };
+    let mut first_err: Option<String> = None;
+    let mut results = Vec::new();
     for r in per_thread {
-        let (v, rounds, calls) = r?;
+        match r {
+            Ok(x) => results.push(x),
+            Err(e) => {
+                if first_err.is_none() || first_err.as_deref().map_or(false, |m| m.starts_with('<')) {
+                    first_err = Some(e);
+                }
+            }
+        }
+    }
+    if let Some(e) = first_err {
+        return Err(e);
+    }
+    for (v, rounds, calls) in results {
         st.rounds_min = st.rounds_min.min(rounds);
         st.calls += calls;
         for (i, seen) in v {
